@@ -1,6 +1,7 @@
 // C20 - writers refuse quantities that do not fit their on-disk fields.
 // Every limit is enumerated at and just beyond: VOL member sizes and accumulated offsets (sparse files), CLM data
 // offsets and name lengths, size-prefixed containers, the 32-bit container size of maps, frame layer counts.
+#include <cctype>
 #include <sys/mman.h>
 #include "mc/mc.hpp"
 #include "ref/ref_vol.hpp"
@@ -145,6 +146,10 @@ void clmNames(Ctx& ctx)
 		std::string key = "CLM name '" + base + "' (" + std::to_string(base.size()) + " bytes)";
 		if (base.size() <= 8) {
 			ctx.count("clm/name-of-8");
+			// a name that fits need not be accepted for all that: only names of letters, digits and underscores are (C03 packs those);
+			// a writer may refuse blanks, separators or bytes beyond ASCII - what it accepts must come out whole (below)
+			bool plain = !base.empty(); for (unsigned char ch : base) if (!(std::isalnum(ch) && ch < 0x80) && ch != '_') plain = false;
+			if (o.cls != 'R' && !plain) { ctx.count("clm/unusual-name-refused"); continue; }
 			if (o.cls != 'R') { ctx.violation("C20/clm/refused-8-character-name", key, o.what); continue; }
 			auto p2 = ref::parseClm(mc::readFile(out));
 			if (!p2.ok || p2.entries.size() != 1 || p2.entries[0].name != base) ctx.violation("C20/clm/name-field-after-accepting", key, p2.ok ? p2.entries[0].name : p2.why);
